@@ -110,19 +110,34 @@ Theorem C08_enabled_exact : forall cfg s0 h k,
 Proof. exact C08_enabled_exact_proof. Qed.
 Print Assumptions C08_enabled_exact.
 
-(* HasCapability(n) is true iff the client is connected and some ACK line listed an ASCII
-   case variant k of n that no later DEL line listed (DEL matches the token name byte for
-   byte: the part of the token before '='). *)
+(* HasCapability(n) is true iff the client is connected and, for some ASCII case variant k
+   of n, some line acknowledged k (Spec acked_by) and no later line removed it (Spec
+   removed_by: a DEL naming k byte for byte — the part of a token before '=' — or, once
+   removals are understood, an ACK listing "-k").  Proven for either value of
+   ack_removal_aware. *)
 Theorem C08_has_capability : forall cfg s0 h connected n,
   has_capability connected (st_enabled (cap_after cfg (cap_init s0) h)) n = true <->
   connected = true /\
   exists k, to_lower_ascii k = to_lower_ascii n /\
-  exists h1 i h2, h = h1 ++ i :: h2 /\
-    (is_ack (in_params i) = true /\ In k (cap_tokens (in_params i))) /\
-    forall j, In j h2 ->
-      ~ (is_del (in_params j) = true /\ In k (List.map cap_token_name (cap_tokens (in_params j)))).
+  exists h1 i h2, h = h1 ++ i :: h2 /\ acked_by (in_params i) k /\
+                  forall j, In j h2 -> ~ removed_by (in_params j) k.
 Proof. exact C08_has_capability_proof. Qed.
 Print Assumptions C08_has_capability.
+
+(* The statement in plain terms, for servers that never acknowledge a removal (no ACK token
+   starts with '-'; girc itself never requests one): true iff connected and some ACK listed a
+   case variant k that no later DEL listed. *)
+Theorem C08_has_capability_plain : forall cfg s0 h connected n,
+  no_removal_acks h ->
+  (has_capability connected (st_enabled (cap_after cfg (cap_init s0) h)) n = true <->
+   connected = true /\
+   exists k, to_lower_ascii k = to_lower_ascii n /\
+   exists h1 i h2, h = h1 ++ i :: h2 /\
+     (is_ack (in_params i) = true /\ In k (cap_tokens (in_params i))) /\
+     forall j, In j h2 ->
+       ~ (is_del (in_params j) = true /\ In k (List.map cap_token_name (cap_tokens (in_params j))))).
+Proof. exact C08_has_capability_plain_proof. Qed.
+Print Assumptions C08_has_capability_plain.
 
 (* the same through the operation ledger (the form that survives a change of what an ACK
    token means, see Spec/CapSpec.v ack_ops) *)
